@@ -743,17 +743,19 @@ func slowReaderProp() engine.AnyProp {
 					o.Failf("harness: %v", err)
 					return
 				}
-				ch, err := helper.ReadFromCsvFile[RowD](path, true)
-				if err != nil {
-					o.Failf("ReadFromCsvFile: %v", err)
-					return
-				}
 				pause := 6 * time.Second
 				if engine.Thorough() {
 					pause = 21 * time.Second
 				}
 				var back []*RowD
+				var openErr error
 				if verdict, detail := pipe.Call(func() {
+					// (opened inside the guarded call: see the note in pipe.Call)
+					ch, err := helper.ReadFromCsvFile[RowD](path, true)
+					if err != nil {
+						openErr = err
+						return
+					}
 					back = append(back, <-ch)
 					time.Sleep(pause)
 					for r := range ch {
@@ -761,6 +763,10 @@ func slowReaderProp() engine.AnyProp {
 					}
 				}); verdict != "ok" {
 					o.Failf("a reader that paused %v after the first row never saw the end of the stream: %s: %s", pause, verdict, detail)
+					return
+				}
+				if openErr != nil {
+					o.Failf("ReadFromCsvFile: %v", openErr)
 					return
 				}
 				if msg := equalRows(back, rows); msg != "" {
